@@ -50,6 +50,14 @@ def strata(tier, profile='full'):
             ('singles', tuple(map(_freeze, gen.cell_singles(True)))),
             ('pairs', tuple(map(_freeze, gen.cell_pairs(True)))),
         )
+    if profile == 'tiny':
+        if tier == 'quick':
+            return (
+                ('core<=3', tuple(map(_freeze, gen.core_trees(3)))),
+                ('singles', tuple(map(_freeze, gen.cell_singles(True)))),
+                ('pairs-canonical', tuple(map(_freeze, gen.cell_pairs('canon')))),
+            )
+        return strata(tier, 'small')
     raise ValueError(profile)
 
 
